@@ -35,6 +35,7 @@ func init() {
 				emit(hx(txt) + "\tengine")
 				emit(hx(txt) + "\tenginesrc")
 				emit(hx(txt) + "\twithpair")
+				emit(hx(txt) + "\tsrcpair")
 				// The same subset on a blocking rule (mostly rejected: the
 				// modifiers are exception-only) and with other general
 				// modifiers.
@@ -79,6 +80,30 @@ func init() {
 				for _, o := range orders {
 					if got := rules.NewMatchingResult(o, nil).GetCosmeticOption(); got != opt {
 						return fmt.Sprint(uint32(opt)) + "!OPTION-DEPENDS-ON-THE-POSITION-OF-A-CANCELLED-PAIR", f[0] + "\tdirect", rule.Whitelist
+					}
+				}
+				mi = f[0] + "\tdirect"
+			case "srcpair":
+				// the page is also matched by an $important block restricted to the referrer, and the referrer by TWO
+				// document-level exceptions with different flag sets, the $urlblock one being the lower in priority: $urlblock
+				// switches every blocking rule off wherever it stands, so the exception is the verdict and the option is its own
+				blk, _ := rules.NewNetworkRule("||example.org^$important,domain=a.org", 1)
+				mk := func(ts ...string) (out []*rules.NetworkRule) {
+					for _, t := range ts {
+						r, perr := rules.NewNetworkRule(t, 1)
+						must(perr)
+						out = append(out, r)
+					}
+					return out
+				}
+				hi := []string{"@@||a.org^$genericblock,content", "@@||a.org^$genericblock,important", "@@||a.org^$genericblock,elemhide,jsinject", "@@||a.org^$genericblock,domain=a.org"}[len(text)%4]
+				srcs := [][]*rules.NetworkRule{mk("@@||a.org^$urlblock"), mk("@@||a.org^$urlblock", hi), mk(hi, "@@||a.org^$urlblock"), mk(hi, "@@||a.org^$urlblock", hi)}
+				opt = rules.NewMatchingResult([]*rules.NetworkRule{blk, rule}, srcs[0]).GetCosmeticOption()
+				for k, src := range srcs {
+					for _, rs := range [][]*rules.NetworkRule{{blk, rule}, {rule, blk}} {
+						if got := rules.NewMatchingResult(rs, src).GetCosmeticOption(); got != opt {
+							return fmt.Sprint(uint32(opt)) + fmt.Sprintf("!OPTION-DEPENDS-ON-THE-ORDER-OF-THE-PAGE-EXCEPTIONS:variant %d gives %d", k, uint32(got)), f[0] + "\tdirect", rule.Whitelist
+						}
 					}
 				}
 				mi = f[0] + "\tdirect"
